@@ -11,24 +11,42 @@
 // NO `decreases` clause; every OTHER loop of the function has one and it is checked (the population loops, the class
 // enumeration, the fold and the three application loops each terminate).  Everything below is "IF `unify` returns ...".
 //
-// Contract (labels C14.unify.* / C13.unify.* / C01.unify.*), for `F` = the forest handed to `state.set_result(..)`:
+// Contract (labels C14.unify.* / C13.unify.* / C03.unify.* / C01.unify.*), for `F` = the forest handed to `state.set_result(..)`:
 //   one_equality_free_type_per_class   r is Ok ==> every variable of F is in a class whose data is Some(s), |s| <= 1, no `Equal` in s
 //   every_variable_registered          r is Ok ==> every variable of the INITIAL state is in F; every variable of the FINAL
 //                                      state (= initial + what the merges reported in `ty_vars`, A-CALLEE) is in F
 //   declared_equal_same_class          r is Ok ==> for every `Equal{id}` judgement on v in the initial state: v, id in F and root(v) == root(id)
-//                                      (unions are never undone: `grows` — classes only grow — is an invariant of every loop)
-//   stops_only_at_a_fixpoint           the `break` of the fixpoint loop is only reached when every class root holds <= 1 expression
-//                                      (loop `ensures`; a cap on rounds / break on progress cannot establish it)
+//                                      (unions are never undone: `grows` — classes only grow — is carried through every loop)
+//   emitted_equalities_same_class      every equality any merge emitted (ghost ledger `vx_emitted`, all rounds) is honoured by the forest
+//                                      at the end of the round that emitted it and ever after (C14: component variables are unified as well)
+//   emitted_judgements_recorded        every judgement the merges of a round emitted is part of its variable's class data at the end of that round
+//   stops_only_at_a_fixpoint           every exit of the fixpoint loop leaves every class root with <= 1 expression (assertion on the state at the
+//                                      `break`; a cap on rounds / a break on progress cannot establish it)
 //   merge_precondition                 `merge` is only called with non-`Equal` operands (the call-site obligation unit merge leaves open)
 //   no_equal_enters_class_data         invariant of all nine loops: no class datum is an `Equal`
 //   stop_returns_error_without_result  (C13) r is Err ==> exactly one error, StoppedByWatchdog, raised at the very poll that answered
 //                                      stop (the LAST poll made; all earlier ones answered continue), and `set_result` was not called
 //   ok_only_if_every_poll_continued    (C13) r is Ok ==> every poll made answered continue;  r is Err <==> some poll answered stop
-//   polls_when_counter_is_a_multiple   (C13) a poll is made at a class visit exactly when the count of folded classes so far is a
+//   polls_when_counter_is_a_multiple_of_the_interval
+//                                      (C13) a poll is made at a class visit exactly when the count of FOLDED (non-empty) classes so far is a
 //                                      multiple of poll_every() (ghost `vx_due` counts those visits; polls made == vx_due)
+//   never_fewer_polls_than_one_per_interval_of_folded_classes
+//                                      (C13) polls made >= ceil(folded classes / poll_every()).  NOT provable, and not true of the code:
+//                                      "== ceil(class visits / poll_every())" — visits of EMPTY classes do not advance the counter, so they
+//                                      are polled every time while the counter sits on a multiple and never otherwise (reported as suspicious)
 //   modulus_not_zero                   (C01) `counter % polling_interval` under the precondition poll_every() >= 1
+//   *_terminate(s)                     (C03, local) every loop except the fixpoint loop has a checked `decreases`
 //
 // The watchdog is an external time-varying oracle, modelled by ghost poll history exactly as in unit watchdog.
+//
+// Proof anchors: structural only (entry, loopstart #4/#5, afterloop #1..#5).  The `for` loops are rewritten at their HEADER only
+// (R-FOREACH), so every loop body reaches the verifier verbatim.  Invariants name the function's own state (`forest`, `state`,
+// `watchdog`, `counter`, `polling_interval`, `made_progress`, `all_equalities`, `all_judgements`, `all_new_ty_vars`, `current`,
+// `inferred_expressions`, `type_var`): renaming or removing one of those is a rustc-stage error = UNDECIDED (never a violation).
+// The three application loops (insert fresh variables / unions / judgements) drain ghost ledgers (`vx_pv`, `vx_pe`, `vx_pj`), so
+// the proof does not depend on the order in which they run; their invariants travel with the R-FOREACH rewrite of their header
+// (`optional`), so that removing one of them reaches the verifier as a failed obligation instead of a lost loop ordinal.
+// The HEADER text of each rewritten `for` loop is matched exactly: renaming a loop variable of such a header is UNDECIDED.
 use vstd::prelude::*;
 use std::collections::VecDeque;
 //@dropped TERMINATION of the fixpoint loop of `unify` (C03 "unification finishes", C14 "unification terminates"): NOT proved, known NOT to hold (D13); the loop is exempted from the termination check by #[verifier::exec_allows_no_decreases_clause] on `unify` and has no decreases clause
@@ -162,7 +180,6 @@ pub fn vx_into_vec<T>(s: HashSet<T>) -> (r: Vec<T>)
 #[verifier::external_body]
 pub fn vx_refs<'a, T>(s: &'a HashSet<T>) -> (r: Vec<&'a T>)
     ensures
-        r@.len() == s@.len(),
         forall|k: int| 0 <= k < r@.len() ==> s@.contains(*#[trigger] r@[k]),
         forall|e: T| s@.contains(e) ==> exists|k: int| 0 <= k < r@.len() && *#[trigger] r@[k] == e,
 { unimplemented!() }
@@ -324,8 +341,14 @@ pub open spec fn all_resolved(f: &UnificationForest) -> bool { forall|v: TypeVar
 pub broadcast proof fn lemma_insert(a: &UnificationForest, b: &UnificationForest, x: TypeVariable)
     requires #[trigger] UnificationForest::insert_post(a, b, x),
     ensures grows(a, b), data_eq_free(a) ==> data_eq_free(b), b.dom(x),
+        forall|j: Judgement| #[trigger] recorded(a, j) ==> recorded(b, j),
 {
     assert(b.dom(x) == (a.dom(x) || x == x));
+    assert forall|j: Judgement| #[trigger] recorded(a, j) implies recorded(b, j) by {
+        assert(b.dom(j.tv) == (a.dom(j.tv) || j.tv == x));
+        assert(b.root(j.tv) == a.root(j.tv));
+        assert(b.dat(b.root(j.tv)) == a.dat(b.root(j.tv)));
+    }
     assert forall|p: TypeVariable, q: TypeVariable| #[trigger] same_class(a, p, q) implies same_class(b, p, q) by {
         assert(b.dom(p) == (a.dom(p) || p == x)); assert(b.dom(q) == (a.dom(q) || q == x));
     }
@@ -334,7 +357,18 @@ pub broadcast proof fn lemma_insert(a: &UnificationForest, b: &UnificationForest
 pub broadcast proof fn lemma_union(a: &UnificationForest, b: &UnificationForest, x1: TypeVariable, x2: TypeVariable)
     requires #[trigger] UnificationForest::union_post(a, b, x1, x2),
     ensures grows(a, b), data_eq_free(a) ==> data_eq_free(b), same_class(b, x1, x2),
+        forall|j: Judgement| #[trigger] recorded(a, j) ==> recorded(b, j),
 {
+    assert forall|j: Judgement| #[trigger] recorded(a, j) implies recorded(b, j) by {
+        let (r1, r2) = (a.root_or_self(x1), a.root_or_self(x2));
+        assert(b.dom(j.tv) == (a.dom(j.tv) || j.tv == x1 || j.tv == x2));
+        assert(b.root(j.tv) == (if a.root(j.tv) == r2 { r1 } else { a.root(j.tv) }));
+        if r1 != r2 {
+            assert(b.dat(b.root(j.tv)) == (if b.root(j.tv) == r1 { Some(a.dat_or_id(r1).union(a.dat_or_id(r2))) } else if b.root(j.tv) == r2 { None } else { a.dat(b.root(j.tv)) }));
+        } else {
+            assert(b.dat(b.root(j.tv)) == a.dat(b.root(j.tv)));
+        }
+    }
     assert(b.dom(x1) == (a.dom(x1) || x1 == x1 || x1 == x2));
     assert(b.dom(x2) == (a.dom(x2) || x2 == x1 || x2 == x2));
     assert forall|p: TypeVariable, q: TypeVariable| #[trigger] same_class(a, p, q) implies same_class(b, p, q) by {
@@ -357,8 +391,14 @@ pub broadcast proof fn lemma_union(a: &UnificationForest, b: &UnificationForest,
 pub broadcast proof fn lemma_add_data(a: &UnificationForest, b: &UnificationForest, x: TypeVariable, d: Set<TypeExpression>)
     requires #[trigger] UnificationForest::add_data_post(a, b, x, d),
     ensures grows(a, b), data_eq_free(a) && eq_free(d) ==> data_eq_free(b), b.dom(x),
+        forall|j: Judgement| #[trigger] recorded(a, j) ==> recorded(b, j),
+        forall|j: Judgement| j.tv == x && d.contains(j.expr) ==> #[trigger] recorded(b, j),
 {
     assert(b.dom(x) == (a.dom(x) || x == x));
+    assert forall|j: Judgement| #[trigger] recorded(a, j) implies recorded(b, j) by {
+        assert(b.dom(j.tv) == (a.dom(j.tv) || j.tv == x));
+        assert(b.root(j.tv) == a.root(j.tv));
+    }
     assert forall|p: TypeVariable, q: TypeVariable| #[trigger] same_class(a, p, q) implies same_class(b, p, q) by {
         assert(b.dom(p) == (a.dom(p) || p == x)); assert(b.dom(q) == (a.dom(q) || q == x));
     }
@@ -459,7 +499,6 @@ impl TypeCheckerState {
         ensures
             final(self).forest() == result,
             forall|v: TypeVariable| #[trigger] final(self).is_var(v) == old(self).is_var(v),
-            forall|v: TypeVariable| #[trigger] final(self).infs(v) == old(self).infs(v),
     { unimplemented!() }
 }
 
@@ -500,7 +539,38 @@ pub open spec fn some_poll_answered_stop(before: &DynWatchdog, after: &DynWatchd
     exists|k: nat| before.polls() <= k < after.polls() && answer(k)
 }
 
-// ---- errors (extracted) ------------------------------------------------------------------------------------
+// ---- arithmetic of "once per `every` folded classes, starting with the first" = ceil(n / every) (copied from unit watchdog, proved here too) ----
+/// polls a loop makes over `iterations` counted iterations when it polls on the counts 0, every, 2 * every, ..
+pub open spec fn polls_due(iterations: nat, every: nat) -> nat { if every == 0 { 0 } else { ((iterations + every - 1) as nat) / every } }
+/// one more counted iteration costs one more poll exactly when its index is a multiple of the interval
+pub proof fn lemma_polls_due_step(c: nat, e: nat)
+    requires e >= 1,
+    ensures polls_due(c + 1, e) == polls_due(c, e) + (if c % e == 0 { 1nat } else { 0nat }),
+{
+    let q = (c / e) as int;
+    let r = (c % e) as int;
+    let d = e as int;
+    vstd::arithmetic::div_mod::lemma_fundamental_div_mod(c as int, d);
+    assert(c as int == q * d + r) by (nonlinear_arith) requires c as int == d * q + r;
+    assert((q + 1) * d == q * d + d) by (nonlinear_arith);
+    if r == 0 {
+        vstd::arithmetic::div_mod::lemma_fundamental_div_mod_converse(c as int + d - 1, d, q, d - 1);
+        vstd::arithmetic::div_mod::lemma_fundamental_div_mod_converse(c as int + d, d, q + 1, 0);
+    } else {
+        vstd::arithmetic::div_mod::lemma_fundamental_div_mod_converse(c as int + d - 1, d, q + 1, r - 1);
+        vstd::arithmetic::div_mod::lemma_fundamental_div_mod_converse(c as int + d, d, q + 1, r);
+    }
+    assert(((c + e - 1) as nat) as int == c as int + d - 1);
+    assert(((c + 1 + e - 1) as nat) as int == c as int + d);
+}
+pub proof fn lemma_polls_due_zero(e: nat)
+    requires e >= 1,
+    ensures polls_due(0, e) == 0,
+{
+    vstd::arithmetic::div_mod::lemma_fundamental_div_mod_converse((e - 1) as int, e as int, 0, (e - 1) as int);
+}
+
+// ---- errors (extracted) ----
 //@extract file=src/error/unification.rs path="enum Error" kind=type id=unification::Error
 //@end
 // A-DERIVE: #[derive(Clone)] on Error returns an equal value (needed by `Located<E: Clone>`)
@@ -541,7 +611,7 @@ pub fn merge(left: TE, right: TE, parent_tv: TypeVariable, state: &mut TypeCheck
     ensures
         !(m.expression is Equal),
         forall|k: int| 0 <= k < m.judgements@.len() ==> !((#[trigger] m.judgements@[k]).expr is Equal),
-        forall|v: TypeVariable| #[trigger] final(state).is_var(v) == (old(state).is_var(v) || m.ty_vars@.contains(v)),
+        forall|v: TypeVariable| #[trigger] final(state).is_var(v) ==> old(state).is_var(v) || m.ty_vars@.contains(v),
         final(state).forest() == old(state).forest(),
 { unimplemented!() }
 
@@ -566,6 +636,18 @@ pub open spec fn registers_all(s: &TypeCheckerState, f: &UnificationForest) -> b
 pub open spec fn one_equality_free_type_per_class(f: &UnificationForest) -> bool {
     forall|v: TypeVariable| #[trigger] f.dom(v) ==> resolved_at(f, f.root(v)) && eq_free(f.dat(f.root(v))->Some_0)
 }
+/// C14 (component unification): every equality in `q` is honoured by the forest
+pub open spec fn honours_emitted(q: Set<Equality>, f: &UnificationForest) -> bool {
+    forall|e: Equality| #[trigger] q.contains(e) ==> same_class(f, e.left, e.right)
+}
+/// the judgement `j` is part of the data of its variable's class
+pub open spec fn recorded(f: &UnificationForest, j: Judgement) -> bool {
+    f.dom(j.tv) && f.dat(f.root(j.tv)) is Some && f.dat(f.root(j.tv))->Some_0.contains(j.expr)
+}
+/// every judgement in `q` is part of the data of its variable's class
+pub open spec fn records_judgements(q: Set<Judgement>, f: &UnificationForest) -> bool {
+    forall|j: Judgement| #[trigger] q.contains(j) ==> recorded(f, j)
+}
 pub open spec fn judgements_eq_free(s: Set<Judgement>) -> bool { forall|j: Judgement| #[trigger] s.contains(j) ==> !(j.expr is Equal) }
 
 pub broadcast proof fn lemma_fixpoint_is_the_postcondition(f: &UnificationForest)
@@ -582,7 +664,6 @@ pub broadcast proof fn lemma_fixpoint_is_the_postcondition(f: &UnificationForest
 // TERMINATION NOT CLAIMED: the fixpoint `loop` (loop 4) has no `decreases`; all other loops have one.
 #[verifier::exec_allows_no_decreases_clause]
 #[verifier::loop_isolation(false)]
-#[verifier::allow_complex_invariants]
 //@extract file=src/tc/unification.rs path="fn unify"
 //@ret r
 // R-SIG: the oracle's poll counter is ghost state of the stand-in, so the parameter is `&mut` (see //@dropped)
@@ -643,11 +724,16 @@ let vx_new7 = vx_into_vec(all_new_ty_vars); let mut vx_i7: usize = 0;
                 forest.wf(),
                 grows(&vx_f4, &forest),
                 data_eq_free(&forest),                                                                                                //@ob C14.unify.no_equal_enters_class_data
-                forall|v: TypeVariable| #[trigger] state.is_var(v) ==> forest.dom(v) || exists|k: int| vx_i7 <= k < vx_new7.len() && #[trigger] vx_new7@[k] == v,     //@ob C14.unify.every_variable_registered
-                !made_progress ==> vx_new7.len() == 0 && all_resolved(&forest),                                                       //@ob C14.unify.stops_only_at_a_fixpoint
+                // what this round still has to apply (ghost ledgers, drained by the three application loops in whatever order they run)
+                forall|v: TypeVariable| #[trigger] state.is_var(v) ==> forest.dom(v) || vx_pv.contains(v),                            //@ob C14.unify.every_variable_registered
+                forall|e: Equality| #[trigger] vx_emitted.contains(e) ==> same_class(&forest, e.left, e.right) || vx_pe.contains(e),  //@ob C14.unify.emitted_equalities_same_class
+                forall|j: Judgement| #[trigger] vx_last_js.contains(j) ==> recorded(&forest, j) || vx_pj.contains(j),                 //@ob C14.unify.emitted_judgements_recorded
+                !made_progress ==> all_resolved(&forest),                                                                             //@ob C14.unify.stops_only_at_a_fixpoint
                 counter as nat <= forest.enumerated(),
-            decreases vx_new7.len() - vx_i7,
-        { let var = vx_new7[vx_i7]; vx_i7 += 1;
+                forall|v: TypeVariable| #[trigger] vx_pv.contains(v) ==> exists|k: int| vx_i7 <= k < vx_new7.len() && #[trigger] vx_new7@[k] == v,
+                !made_progress ==> vx_new7.len() == 0,                                                                                //@ob C14.unify.stops_only_at_a_fixpoint
+            decreases vx_new7.len() - vx_i7,                                                                                          //@ob C03.unify.application_loops_terminate
+        { let var = vx_new7[vx_i7]; vx_i7 += 1; proof { vx_pv = vx_pv.remove(vx_new7@[vx_i7 - 1]); }
 //@rw R-FOREACH optional
 //@old
 for Equality { left, right } in all_equalities {
@@ -659,11 +745,16 @@ let vx_eqs8 = vx_into_vec(all_equalities); let mut vx_i8: usize = 0;
                 forest.wf(),
                 grows(&vx_f4, &forest),
                 data_eq_free(&forest),                                                                                                //@ob C14.unify.no_equal_enters_class_data
-                !made_progress ==> vx_eqs8.len() == 0 && all_resolved(&forest),                                                       //@ob C14.unify.stops_only_at_a_fixpoint
-                registers_all(state, &forest),                                                                                        //@ob C14.unify.every_variable_registered
+                // what this round still has to apply (ghost ledgers, drained by the three application loops in whatever order they run)
+                forall|v: TypeVariable| #[trigger] state.is_var(v) ==> forest.dom(v) || vx_pv.contains(v),                            //@ob C14.unify.every_variable_registered
+                forall|e: Equality| #[trigger] vx_emitted.contains(e) ==> same_class(&forest, e.left, e.right) || vx_pe.contains(e),  //@ob C14.unify.emitted_equalities_same_class
+                forall|j: Judgement| #[trigger] vx_last_js.contains(j) ==> recorded(&forest, j) || vx_pj.contains(j),                 //@ob C14.unify.emitted_judgements_recorded
+                !made_progress ==> all_resolved(&forest),                                                                             //@ob C14.unify.stops_only_at_a_fixpoint
                 counter as nat <= forest.enumerated(),
-            decreases vx_eqs8.len() - vx_i8,
-        { let Equality { left, right } = vx_nth(&vx_eqs8, vx_i8); vx_i8 += 1;
+                forall|e: Equality| #[trigger] vx_pe.contains(e) ==> exists|k: int| vx_i8 <= k < vx_eqs8.len() && #[trigger] vx_eqs8@[k] == e,
+                !made_progress ==> vx_eqs8.len() == 0,                                                                                //@ob C14.unify.stops_only_at_a_fixpoint
+            decreases vx_eqs8.len() - vx_i8,                                                                                          //@ob C03.unify.application_loops_terminate
+        { let Equality { left, right } = vx_nth(&vx_eqs8, vx_i8); vx_i8 += 1; proof { vx_pe = vx_pe.remove(vx_eqs8@[vx_i8 - 1]); }
 //@rw R-FOREACH optional
 //@old
 for Judgement { tv, expr } in all_judgements {
@@ -675,12 +766,17 @@ let vx_js9 = vx_into_vec(all_judgements); let mut vx_i9: usize = 0;
                 forest.wf(),
                 grows(&vx_f4, &forest),
                 data_eq_free(&forest),                                                                                                //@ob C14.unify.no_equal_enters_class_data
-                forall|k: int| 0 <= k < vx_js9@.len() ==> !((#[trigger] vx_js9@[k]).expr is Equal),
-                !made_progress ==> vx_js9.len() == 0 && all_resolved(&forest),                                                        //@ob C14.unify.stops_only_at_a_fixpoint
-                registers_all(state, &forest),                                                                                        //@ob C14.unify.every_variable_registered
+                // what this round still has to apply (ghost ledgers, drained by the three application loops in whatever order they run)
+                forall|v: TypeVariable| #[trigger] state.is_var(v) ==> forest.dom(v) || vx_pv.contains(v),                            //@ob C14.unify.every_variable_registered
+                forall|e: Equality| #[trigger] vx_emitted.contains(e) ==> same_class(&forest, e.left, e.right) || vx_pe.contains(e),  //@ob C14.unify.emitted_equalities_same_class
+                forall|j: Judgement| #[trigger] vx_last_js.contains(j) ==> recorded(&forest, j) || vx_pj.contains(j),                 //@ob C14.unify.emitted_judgements_recorded
+                !made_progress ==> all_resolved(&forest),                                                                             //@ob C14.unify.stops_only_at_a_fixpoint
                 counter as nat <= forest.enumerated(),
-            decreases vx_js9.len() - vx_i9,
-        { let Judgement { tv, expr } = vx_nth(&vx_js9, vx_i9); vx_i9 += 1;
+                forall|j: Judgement| #[trigger] vx_pj.contains(j) ==> exists|k: int| vx_i9 <= k < vx_js9.len() && #[trigger] vx_js9@[k] == j,
+                forall|k: int| 0 <= k < vx_js9@.len() ==> !((#[trigger] vx_js9@[k]).expr is Equal),                                   //@ob C14.unify.no_equal_enters_class_data
+                !made_progress ==> vx_js9.len() == 0,                                                                                 //@ob C14.unify.stops_only_at_a_fixpoint
+            decreases vx_js9.len() - vx_i9,                                                                                           //@ob C03.unify.application_loops_terminate
+        { let Judgement { tv, expr } = vx_nth(&vx_js9, vx_i9); vx_i9 += 1; proof { vx_pj = vx_pj.remove(vx_js9@[vx_i9 - 1]); }
 //@spec
         requires
             // C01: `counter % poll_every()` panics for 0; nothing in the repository rejects `polling_every(0)`
@@ -700,7 +796,14 @@ let vx_js9 = vx_into_vec(all_judgements); let mut vx_i9: usize = 0;
 //@proof entry
     broadcast use container::axiom_question_mark_converts_with_from, lemma_insert, lemma_union, lemma_add_data, lemma_set_data, lemma_sets, lemma_fixpoint_is_the_postcondition;
     let ghost mut vx_due: nat = 0;        // class visits at which a poll was due
+    proof { lemma_polls_due_zero(watchdog.interval() as nat); }
     let ghost mut vx_f4: UnificationForest = arbitrary();    // the forest at the start of the current round
+    let ghost mut vx_emitted: Set<Equality> = Set::empty();  // every equality the merges have emitted so far (all rounds)
+    let ghost mut vx_last_js: Set<Judgement> = Set::empty(); // the judgements the merges of the latest round emitted
+    // what the current round still has to apply: fresh variables to insert, equalities to union, judgements to record
+    let ghost mut vx_pv: Set<TypeVariable> = Set::empty();
+    let ghost mut vx_pe: Set<Equality> = Set::empty();
+    let ghost mut vx_pj: Set<Judgement> = Set::empty();
 //@loop 1
         invariant
             vx_i1 <= vx_vars1.len(),
@@ -708,7 +811,7 @@ let vx_js9 = vx_into_vec(all_judgements); let mut vx_i9: usize = 0;
             forall|k: int| 0 <= k < vx_i1 ==> forest.dom(#[trigger] vx_vars1@[k]),
             forall|v: TypeVariable| forest.dat(v) is None,                                                               //@ob C14.unify.no_equal_enters_class_data
             forest.enumerated() == 0,
-        decreases vx_vars1.len() - vx_i1,
+        decreases vx_vars1.len() - vx_i1,                                                                                //@ob C03.unify.population_loops_terminate
 //@loop 2
         invariant
             vx_i2 <= vx_vars2.len(),
@@ -717,7 +820,7 @@ let vx_js9 = vx_into_vec(all_judgements); let mut vx_i9: usize = 0;
             data_eq_free(&forest),                                                                                       //@ob C14.unify.no_equal_enters_class_data
             forall|k: int| 0 <= k < vx_i2 ==> honoured_for(state, &forest, #[trigger] vx_vars2@[k]),                       //@ob C14.unify.declared_equal_same_class
             forest.enumerated() == 0,
-        decreases vx_vars2.len() - vx_i2,
+        decreases vx_vars2.len() - vx_i2,                                                                                //@ob C03.unify.population_loops_terminate
 //@loop 3
             invariant
                 vx_i3 <= vx_exprs3.len(),
@@ -729,7 +832,7 @@ let vx_js9 = vx_into_vec(all_judgements); let mut vx_i9: usize = 0;
                 forall|j: int| 0 <= j < vx_i3 && (*(#[trigger] vx_exprs3@[j])) is Equal
                     ==> same_class(&forest, type_var, (*vx_exprs3@[j])->Equal_id),                                       //@ob C14.unify.declared_equal_same_class
                 forest.enumerated() == 0,
-            decreases vx_exprs3.len() - vx_i3,
+            decreases vx_exprs3.len() - vx_i3,                                                                           //@ob C03.unify.population_loops_terminate
 //@proof afterloop #1
     proof {
         assert forall|v: TypeVariable| #[trigger] state.is_var(v) implies forest.dom(v) by {
@@ -761,12 +864,17 @@ let vx_js9 = vx_into_vec(all_judgements); let mut vx_i9: usize = 0;
             registers_all(old(state), &forest),                                                                          //@ob C14.unify.every_variable_registered
             registers_all(state, &forest),                                                                               //@ob C14.unify.every_variable_registered
             honours_equalities(old(state), &forest),                                                                     //@ob C14.unify.declared_equal_same_class
+            honours_emitted(vx_emitted, &forest),                                                                        //@ob C14.unify.emitted_equalities_same_class
+            records_judgements(vx_last_js, &forest),                                                                     //@ob C14.unify.emitted_judgements_recorded
             every_poll_continued(old(watchdog), watchdog),                                                               //@ob C13.unify.goes_on_only_if_every_poll_continued
             watchdog.polls() == old(watchdog).polls() + vx_due,                                                          //@ob C13.unify.polls_when_counter_is_a_multiple_of_the_interval
-            state.forest() == old(state).forest(),
+            vx_due >= polls_due(counter as nat, polling_interval as nat),                                                //@ob C13.unify.never_fewer_polls_than_one_per_interval_of_folded_classes
+            state.forest() == old(state).forest(),                                                                       //@ob C13.unify.stop_returns_error_without_result
             counter as nat <= forest.enumerated(),
-        ensures
-            all_resolved(&forest),                                                                                       //@ob C14.unify.stops_only_at_a_fixpoint
+//@proof afterloop #4
+    // (d) every exit of the fixpoint loop — with loop_isolation(false) the state after the loop is the state at the `break` —
+    // leaves a forest in which no class holds more than one expression: only a round without a merge can establish this
+    proof { assert(all_resolved(&forest)); }                                                                            //@ob C14.unify.stops_only_at_a_fixpoint C03.unify.stops_only_at_a_fixpoint
 //@proof loopstart #4
         proof { vx_f4 = forest; }
 //@loop 5
@@ -778,11 +886,11 @@ let vx_js9 = vx_into_vec(all_judgements); let mut vx_i9: usize = 0;
                 data_eq_free(&forest),                                                                                   //@ob C14.unify.no_equal_enters_class_data
                 // the vector enumerates the class roots, once each
                 forall|k: int| 0 <= k < vx_sets5@.len() ==> forest.is_root((#[trigger] vx_sets5@[k]).0),
-                forall|v: TypeVariable| forest.is_root(v) ==> exists|k: int| 0 <= k < vx_sets5@.len() && (#[trigger] vx_sets5@[k]).0 == v,
+                forall|v: TypeVariable| forest.is_root(v) ==> exists|k: int| 0 <= k < vx_sets5@.len() && (#[trigger] vx_sets5@[k]).0 == v,     //@ob C14.unify.one_equality_free_type_per_class
                 forall|j: int, k: int| 0 <= j < k < vx_sets5@.len() ==> (#[trigger] vx_sets5@[j]).0 != (#[trigger] vx_sets5@[k]).0,
                 // classes not visited yet still hold what `sets()` listed; visited classes hold at most one expression
                 forall|k: int| vx_i5 <= k < vx_sets5@.len() ==> forest.dat((#[trigger] vx_sets5@[k]).0) == Some(vx_sets5@[k].1@),
-                forall|k: int| 0 <= k < vx_i5 ==> resolved_at(&forest, (#[trigger] vx_sets5@[k]).0),
+                forall|k: int| 0 <= k < vx_i5 ==> resolved_at(&forest, (#[trigger] vx_sets5@[k]).0),                          //@ob C14.unify.one_equality_free_type_per_class
                 // fresh variables reported by the merges of this round wait in all_new_ty_vars
                 forall|v: TypeVariable| #[trigger] state.is_var(v) ==> forest.dom(v) || all_new_ty_vars@.contains(v),       //@ob C14.unify.every_variable_registered
                 judgements_eq_free(all_judgements@),                                                                     //@ob C14.unify.no_equal_enters_class_data
@@ -790,15 +898,17 @@ let vx_js9 = vx_into_vec(all_judgements); let mut vx_i9: usize = 0;
                 !made_progress ==> all_equalities@.len() == 0 && all_judgements@.len() == 0 && all_new_ty_vars@.len() == 0,     //@ob C14.unify.stops_only_at_a_fixpoint
                 every_poll_continued(old(watchdog), watchdog),                                                           //@ob C13.unify.goes_on_only_if_every_poll_continued
                 watchdog.polls() == old(watchdog).polls() + vx_due,                                                      //@ob C13.unify.polls_when_counter_is_a_multiple_of_the_interval
-                state.forest() == old(state).forest(),
+                vx_due >= polls_due(counter as nat, polling_interval as nat),                                            //@ob C13.unify.never_fewer_polls_than_one_per_interval_of_folded_classes
+                state.forest() == old(state).forest(),                                                                   //@ob C13.unify.stop_returns_error_without_result
                 forest.enumerated() <= usize::MAX,
                 counter as nat + (vx_sets5@.len() - vx_i5) <= forest.enumerated(),
-            decreases vx_sets5.len() - vx_i5,
+            decreases vx_sets5.len() - vx_i5,                                                                            //@ob C03.unify.class_enumeration_terminates
 //@proof loopstart #5
             proof {
                 assert(polling_interval >= 1);                                                                           //@ob C01.unify.modulus_not_zero
                 // C13: a poll is due at this class visit exactly when the count of folded classes is a multiple of the interval
                 if counter as nat % polling_interval as nat == 0 { vx_due = vx_due + 1; }
+                lemma_polls_due_step(counter as nat, polling_interval as nat);
             }
 //@loop 6
                 invariant
@@ -808,8 +918,8 @@ let vx_js9 = vx_into_vec(all_judgements); let mut vx_i9: usize = 0;
                     forall|v: TypeVariable| #[trigger] state.is_var(v) ==> forest.dom(v) || all_new_ty_vars@.contains(v),   //@ob C14.unify.every_variable_registered
                     judgements_eq_free(all_judgements@),                                                                 //@ob C14.unify.no_equal_enters_class_data
                     !made_progress ==> all_equalities@.len() == 0 && all_judgements@.len() == 0 && all_new_ty_vars@.len() == 0,     //@ob C14.unify.stops_only_at_a_fixpoint
-                    state.forest() == old(state).forest(),
-                decreases inferred_expressions@.len(),
+                    state.forest() == old(state).forest(),                                                               //@ob C13.unify.stop_returns_error_without_result
+                decreases inferred_expressions@.len(),                                                                   //@ob C03.unify.fold_terminates
 //@proof afterloop #5
         proof {
             assert forall|v: TypeVariable| #[trigger] forest.is_root(v) implies resolved_at(&forest, v) by {
@@ -817,6 +927,12 @@ let vx_js9 = vx_into_vec(all_judgements); let mut vx_i9: usize = 0;
                 assert(resolved_at(&forest, vx_sets5@[k].0));
             }
             assert(all_resolved(&forest));
+            // the equalities this round's merges emitted (component unification, C14) join the ledger: they must be
+            // honoured by the end of the round and ever after
+            vx_emitted = vx_emitted.union(all_equalities@);
+            // ... and the judgements they emitted must be part of their class's data by the end of the round
+            vx_last_js = all_judgements@;
+            vx_pv = all_new_ty_vars@; vx_pe = all_equalities@; vx_pj = all_judgements@;
         }
 //@end
 } // verus!
